@@ -272,12 +272,26 @@ func (s *g) scaseOf(t string, d int) *Node {
 	} else {
 		subj = s.str(minInt(d-1, 2))
 	}
+	// planted: subject and first WHEN value are both operator results over columns that are often NULL - a NULL that
+	// comes out of an operator must not match another such NULL any more than two NULL columns match
+	plant := st == "n" && d >= 2 && s.pick("scasenullplant", 4) == 0
+	if plant {
+		nullish := func(l string) *Node { return col([]string{"n", "m", "a", "b"}[s.pick(l, 4)], "n") }
+		subj = bin("ari", "+", "n", nullish("plantsubj"), s.numLeaf())
+	}
 	n.K = append(n.K, subj)
 	nb := 1 + s.pick("branches", 2)
 	for i := 0; i < nb; i++ {
 		var w *Node
+		if plant && i == 0 {
+			w = bin("ari", []string{"+", "-", "*"}[s.pick("plantop", 3)], "n", col([]string{"n", "m", "a", "b"}[s.pick("plantwhen", 4)], "n"), s.numLeaf())
+			n.K = append(n.K, w, s.typed(t, d-1))
+			continue
+		}
 		if s.pick("whenval", 4) == 0 {
-			w = s.typed(st, 1) // may be a column (NULL when-values included)
+			// may be a column (NULL when-values included) or, half of the time, arithmetic / a call over columns:
+			// a NULL produced by an operator is as little equal to another NULL as a NULL column is
+			w = s.typed(st, 1+s.pick("whendepth", 2))
 		} else if st == "n" {
 			w = numLit(s.oneOf("whenlit", numLits))
 		} else {
